@@ -350,9 +350,11 @@ func (s *Spec) Step(ctx context.Context, st *State, pending interface{}, c *Cont
 		// In a new major version, we should consider
 		// (re-)enforcing a default branch for action nodes
 		// (or moving back to the richer type system).
-		if bs == nil {
-			bs = NewBindings()
-		}
+		//
+		// (Extend a copy: an action - the noop interpreter, for
+		// one - can return the very bindings it was given, and
+		// those belong to the caller.)
+		bs = bs.Copy()
 		bs, _ = bs.Extendm("error", "Action node followed no branch",
 			"lastNode", givenState.NodeName,
 			"lastBindings", map[string]interface{}(givenState.Bs.Copy()))
